@@ -685,6 +685,16 @@ Proof.
       rewrite Hcur1 in Hl, Hs. exists c', rest'. split; [exact Hl|]. split; [exact Hs|exact HI'].
 Qed.
 
+Lemma seek_rest_ok_some t : forall rest cur c' rest',
+  seek_rest t cur rest = (c', rest', true) -> c' <> None.
+Proof.
+  induction rest as [|y r IH]; intros cur c' rest' H; cbn in H.
+  - discriminate H.
+  - destruct (t <=? s_t y).
+    + injection H as H1 H2. subst c'. discriminate.
+    + exact (IH _ _ _ H).
+Qed.
+
 Lemma xor_script_spec total : forall acts c rest,
   CurInv total c rest -> (Z.of_nat (length rest) <= total) ->
   xor_script total c acts = Some (spec_script (cur_of (cu_it c)) rest acts).
@@ -715,13 +725,10 @@ Proof.
         rewrite Hcur in Hl, Hs. rewrite Hl.
         assert (Hlen' : Z.of_nat (length rest') <= total) by (destruct HI' as [_ [G0 [Gn _]]]; lia).
         rewrite (IH c' rest' HI' Hlen'). rewrite Hs.
-        destruct (snd (seek_rest t (Some c0) rest)); [|reflexivity].
+        destruct (snd (seek_rest t (Some c0) rest)) eqn:Hok; [|reflexivity].
         unfold cur_of. destruct (i_num (cu_it c') =? 0) eqn:Hz; [|reflexivity].
         (* ok = true means the cursor stands on a sample *)
-        exfalso. clear - Hs Hz. unfold cur_of in Hs. rewrite Hz in Hs.
-        revert Hs. generalize (Some c0). induction rest as [|y r IHr]; intros cur0 Hs; cbn in Hs.
-        -- discriminate Hs.
-        -- destruct (t <=? s_t y); [discriminate Hs|]. exact (IHr _ Hs).
+        exfalso. apply (seek_rest_ok_some _ _ _ _ _ Hs). unfold cur_of. rewrite Hz. reflexivity.
     + destruct (seek_loop_spec total t rest (S (Z.to_nat total)) c HI Hfuel) as [c' [rest' [Hl [Hs HI']]]].
       { left. exact Hcur. }
       rewrite Hcur in Hl, Hs. rewrite Hl.
@@ -729,8 +736,48 @@ Proof.
       rewrite (IH c' rest' HI' Hlen'). rewrite Hs.
       destruct (snd (seek_rest t None rest)) eqn:Hok; [|reflexivity].
       unfold cur_of. destruct (i_num (cu_it c') =? 0) eqn:Hz; [|reflexivity].
-      exfalso. clear - Hs Hz Hok. unfold cur_of in Hs. rewrite Hz in Hs.
-      revert Hs. generalize (@None sample). induction rest as [|y r IHr]; intros cur0 Hs; cbn in Hs.
-      -- discriminate Hs.
-      -- destruct (t <=? s_t y); [discriminate Hs|]. exact (IHr _ Hs).
+      exfalso. apply (seek_rest_ok_some _ _ _ _ _ Hs). unfold cur_of. rewrite Hz. reflexivity.
+Qed.
+
+(* what the cursor specification's Seek means: the first sample ahead with timestamp >= t *)
+Lemma seek_rest_found t : forall rest cur c' rest',
+  seek_rest t cur rest = (c', rest', true) ->
+  exists pre x, c' = Some x /\ rest = pre ++ x :: rest' /\ Forall (fun y => s_t y < t) pre /\ t <= s_t x.
+Proof.
+  induction rest as [|y r IH]; intros cur c' rest' H; cbn in H.
+  - discriminate H.
+  - destruct (Z.leb_spec t (s_t y)) as [Hle|Hgt].
+    + injection H as H1 H2. subst c' rest'. exists [], y. repeat split; [constructor|exact Hle].
+    + destruct (IH _ _ _ H) as [pre [x [E1 [E2 [E3 E4]]]]]. exists (y :: pre), x.
+      split; [exact E1|]. split; [rewrite E2; reflexivity|]. split; [constructor; assumption|exact E4].
+Qed.
+
+Lemma seek_rest_none t : forall rest cur c' rest',
+  seek_rest t cur rest = (c', rest', false) -> rest' = [] /\ Forall (fun y => s_t y < t) rest.
+Proof.
+  induction rest as [|y r IH]; intros cur c' rest' H; cbn in H.
+  - injection H as H1 H2. subst. split; [reflexivity|constructor].
+  - destruct (Z.leb_spec t (s_t y)) as [Hle|Hgt]; [discriminate H|].
+    destruct (IH _ _ _ H) as [E1 E2]. split; [exact E1|constructor; assumption].
+Qed.
+
+Lemma xor_seek_script segs acts :
+  all_obj segs -> Forall wf_sample (flat_map snd segs) ->
+  Z.of_nat (length (flat_map snd segs)) <= 65535 ->
+  exists num bs, xor_encode segs = EOk num [] bs /\
+    xor_run_script (chunk_bytes num [] bs) acts = Some (spec_script None (map st0 (flat_map snd segs)) acts).
+Proof.
+  intros Hobj Hwf Hcap. unfold xor_encode.
+  destruct (xor_run_ok segs 0 [] [] chunk_ok_empty Hobj Hwf ltac:(lia)) as [n' [bs' [Hrun Hok]]].
+  exists n', bs'. split; [exact Hrun|]. cbn [app] in Hok.
+  destruct Hok as [Hn [_ [it [_ Hit]]]].
+  unfold chunk_bytes, xor_run_script. cbn [app].
+  assert (H0 : 0 <= n' <= 65535) by lia.
+  replace (n' / 256 * 256 + n' mod 256) with n' by (Z.div_mod_to_equations; lia).
+  destruct (unpack_pack bs') as [pad [Hp _]]. rewrite Hp.
+  change None with (cur_of (cu_it (mkXC xit_init (bs' ++ pad) false))).
+  apply xor_script_spec.
+  - unfold CurInv. cbn [cu_err cu_it cu_bits]. rewrite map_length. split; [reflexivity|]. split; [cbn; lia|].
+    split; [cbn; lia|]. exists (it, pad). apply Hit.
+  - rewrite map_length. lia.
 Qed.
